@@ -27,6 +27,7 @@ def run(ctx):
     R.rule("C10-R3", "fresh and cached binaries get their metadata assigned", floor=4)
     R.rule("C10-R4", "metadata built per non-implicit argument from pointer-ness and dtype", floor=3)
     R.rule("C10-R6", "the flattened dtype the cast test compares is built by structural recursion: every component contributes its whole flattening, once per tuple entry", floor=5)
+    R.rule("C10-R7", "a clone keeps the element type of its source (the dtype is what setupRun checks a memory argument against)", floor=1)
     R.rule("C10-R5", "declared dtype derivation: wrappers delegate to vartype_t::dtype (qualifiers and array extents applied), never to the bare type", floor=5)
 
     # ---- R1 --------------------------------------------------------------------------
@@ -225,6 +226,15 @@ def run(ctx):
         R.ob("C10-R5", ok, q, "field dtypes through variable_t::dtype()", "%s:%d" % (f.relfile, f.d["line"]), "nested fields use the same chain")
 
     flat_dtypes(prog, R)
+    cp = ctx.program(["src/core/memory.cpp"], thorough_all=False)
+    cl = cp.fn("occa::memory::clone")
+    sets = [c for c in cl.walk() if is_call(c) and (callee(c) or "").endswith("memory::setDtype") and any(is_call(x) and (callee(x) or "").endswith("memory::dtype") for a in call_args(c) for x in walk(a))]
+    typed = [c for c in cl.walk() if is_call(c) and callee(c) == "occa::device::malloc" and any(is_call(x) and (callee(x) or "").endswith("memory::dtype") for a in call_args(c) for x in walk(a))]
+    rets = [r for r in cl.walk() if r["k"] == "ReturnStmt" and kids(r)]
+    okd = bool(typed) or (bool(sets) and all(cl.cfg.before(sets[0], r) or any(x["i"] == sets[0]["i"] for x in walk(r)) for r in rets if not any(x["k"] in ("CXXTemporaryObjectExpr",) and not kids(x) for x in walk(r))))
+    R.ob("C10-R7", okd, cl.q, "clone:result carries dtype()", cl.site(sets[0]) if sets else "%s:%d" % (cl.relfile, cl.d["line"]),
+         "setDtype(dtype()) before the clone is returned" if okd else
+         "the clone is returned with the default byte dtype: bytes cast to anything, so a clone of a float memory is accepted for a `double *` parameter instead of raising")
 
 
 def flat_dtypes(prog, R):
